@@ -395,3 +395,50 @@ func (v *OnlyU) UnmarshalBinary(b []byte) error {
 func (v *OnlyU) UnmarshalJSON(b []byte) error {
 	return doUnmarshal(b, func(c int, p string) { *v = OnlyU{c, p} })
 }
+
+// Str and Bytes are scripted types of string and slice kind: emptiness and equality of
+// such values go through other branches of reflect and testify than structs do. The case
+// number travels inside the value ("<case+1>|<payload>").
+
+// Str is a string-kinded type under test.
+type Str string
+
+// Bytes is a slice-kinded type under test.
+type Bytes []byte
+
+func kindValue(caseNo int, payload string) string { return strconv.Itoa(caseNo) + "|" + payload }
+
+func kindCase(v string) int {
+	if k := strings.IndexByte(v, '|'); k > 0 {
+		if n, err := strconv.Atoi(v[:k]); err == nil {
+			return n
+		}
+	}
+	return 0
+}
+
+func (s Str) MarshalText() ([]byte, error)   { return doMarshal(kindCase(string(s))) }
+func (s Str) MarshalBinary() ([]byte, error) { return doMarshal(kindCase(string(s))) }
+func (s Str) MarshalJSON() ([]byte, error)   { return doMarshal(kindCase(string(s))) }
+func (s *Str) UnmarshalText(b []byte) error {
+	return doUnmarshal(b, func(c int, p string) { *s = Str(kindValue(c, p)) })
+}
+func (s *Str) UnmarshalBinary(b []byte) error {
+	return doUnmarshal(b, func(c int, p string) { *s = Str(kindValue(c, p)) })
+}
+func (s *Str) UnmarshalJSON(b []byte) error {
+	return doUnmarshal(b, func(c int, p string) { *s = Str(kindValue(c, p)) })
+}
+
+func (s Bytes) MarshalText() ([]byte, error)   { return doMarshal(kindCase(string(s))) }
+func (s Bytes) MarshalBinary() ([]byte, error) { return doMarshal(kindCase(string(s))) }
+func (s Bytes) MarshalJSON() ([]byte, error)   { return doMarshal(kindCase(string(s))) }
+func (s *Bytes) UnmarshalText(b []byte) error {
+	return doUnmarshal(b, func(c int, p string) { *s = Bytes(kindValue(c, p)) })
+}
+func (s *Bytes) UnmarshalBinary(b []byte) error {
+	return doUnmarshal(b, func(c int, p string) { *s = Bytes(kindValue(c, p)) })
+}
+func (s *Bytes) UnmarshalJSON(b []byte) error {
+	return doUnmarshal(b, func(c int, p string) { *s = Bytes(kindValue(c, p)) })
+}
